@@ -37,17 +37,60 @@ type atomEval struct {
 	deleteK int64
 	unknown []string
 	assign  map[string]bool
+	env     map[*ssa.Phi]ssa.Value // phis resolved along the current walk
+	target  *ssa.Next              // the loop being tabulated (other range loops are skipped)
+	// forced: sides chosen for tests on the way to the loop that are not about the kind of cell;
+	// ambiguous: such a test met without a choice
+	forced    map[*ssa.If]bool
+	ambiguous *ssa.If
+}
+
+func boolConstOf(v ssa.Value) (bool, bool) {
+	k, ok := v.(*ssa.Const)
+	if !ok || k.Value == nil {
+		return false, false
+	}
+	if b, isB := k.Type().Underlying().(*types.Basic); !isB || b.Info()&types.IsBoolean == 0 {
+		return false, false
+	}
+	return k.Value.ExactString() == "true", true
 }
 
 func (a *atomEval) eval(cond ssa.Value) (bool, bool) {
 	neg := false
-	for {
+	for i := 0; i < 16; i++ {
 		if u, ok := cond.(*ssa.UnOp); ok && u.Op == token.NOT {
 			cond = u.X
 			neg = !neg
 			continue
 		}
+		// conditions evaluated as values: true == x, x != false, and phis resolved along the walk
+		if bo, ok := cond.(*ssa.BinOp); ok && (bo.Op == token.EQL || bo.Op == token.NEQ) {
+			if k, isC := boolConstOf(bo.X); isC {
+				cond = bo.Y
+				if k != (bo.Op == token.EQL) {
+					neg = !neg
+				}
+				continue
+			}
+			if k, isC := boolConstOf(bo.Y); isC {
+				cond = bo.X
+				if k != (bo.Op == token.EQL) {
+					neg = !neg
+				}
+				continue
+			}
+		}
+		if ph, ok := cond.(*ssa.Phi); ok && a.env != nil {
+			if r, ok := a.env[ph]; ok {
+				cond = r
+				continue
+			}
+		}
 		break
+	}
+	if k, isC := boolConstOf(cond); isC {
+		return k != neg, true
 	}
 	res := func(name string, pol bool) (bool, bool) {
 		val := a.assign[name]
@@ -91,29 +134,82 @@ func (a *atomEval) eval(cond ssa.Value) (bool, bool) {
 // assignment until stop(instr) is true; phis are resolved along the way.
 func walkCFG(start, prev *ssa.BasicBlock, a *atomEval, stop func(ssa.Instruction) bool) (map[*ssa.Phi]ssa.Value, ssa.Instruction, bool) {
 	env := map[*ssa.Phi]ssa.Value{}
+	a.env = env
 	b := start
-	for steps := 0; steps < 200; steps++ {
+	entered := a.target == nil
+	for steps := 0; steps < 400; steps++ {
+		// phis of a block are evaluated in parallel from the values of the predecessor
+		upd := map[*ssa.Phi]ssa.Value{}
 		for _, in := range b.Instrs {
 			if ph, ok := in.(*ssa.Phi); ok && prev != nil {
 				for k, p := range b.Preds {
 					if p == prev {
 						v := ph.Edges[k]
-						if q, ok := v.(*ssa.Phi); ok {
-							if r, ok := env[q]; ok {
-								v = r
+						for n := 0; n < 8; n++ {
+							q, isPhi := v.(*ssa.Phi)
+							if !isPhi {
+								break
 							}
+							r, have := env[q]
+							if !have {
+								break
+							}
+							v = r
 						}
-						env[ph] = v
+						upd[ph] = v
 					}
 				}
+			}
+		}
+		for k, v := range upd {
+			env[k] = v
+		}
+		for _, in := range b.Instrs {
+			if _, ok := in.(*ssa.Phi); ok {
 				continue
 			}
-			if stop(in) {
+			if entered && stop(in) {
 				return env, in, true
 			}
 			switch t := in.(type) {
 			case *ssa.If:
+				// range loops: enter the loop being tabulated, skip every other one
+				if ex, isEx := t.Cond.(*ssa.Extract); isEx && ex.Index == 0 {
+					if nx, isNext := ex.Tuple.(*ssa.Next); isNext && a.target != nil && !entered {
+						prev = b
+						if nx == a.target {
+							entered = true
+							b = b.Succs[0]
+						} else {
+							b = b.Succs[1]
+						}
+						break
+					}
+				}
 				val, ok := a.eval(t.Cond)
+				if !ok && !entered && a.target != nil {
+					// a test on the way to the loop that is not about the kind of cell: follow the side
+					// that leads to the loop, if only one does
+					reach := func(from *ssa.BasicBlock) bool {
+						return from == a.target.Block() || kit.PathFromBlock(from, kit.PathQuery{Target: func(x ssa.Instruction) bool { return x == ssa.Instruction(a.target) }}) != nil
+					}
+					r0, r1 := reach(b.Succs[0]), reach(b.Succs[1])
+					if r0 != r1 {
+						val, ok = r0, true
+						a.unknown = a.unknown[:len(a.unknown)-1]
+					} else if r0 && r1 {
+						// unrelated to the kind of cell as far as we know: the caller tries both sides and
+						// requires the same outcome
+						if f, have := a.forced[t]; have {
+							val, ok = f, true
+							a.unknown = a.unknown[:len(a.unknown)-1]
+						} else {
+							a.ambiguous = t
+							a.unknown = a.unknown[:len(a.unknown)-1]
+							return env, in, false
+						}
+					}
+				}
 				if !ok {
 					return env, in, false
 				}
@@ -154,32 +250,6 @@ func deleteKindTable(c *kit.Ctx, fn *ssa.Function, next *ssa.Next, kindOf func(e
 		if as["isNil"] && !as["lenZero"] {
 			continue
 		}
-		a := a0
-		a.v = famMap
-		a.assign = as
-		env, in, ok := walkCFG(body, next.Block(), &a, func(in ssa.Instruction) bool {
-			rg, isR := in.(*ssa.Range)
-			if !isR {
-				return false
-			}
-			_, isMap := rg.X.Type().Underlying().(*types.Map)
-			return isMap
-		})
-		if !ok {
-			unknown = append(unknown, a.unknown...)
-			continue
-		}
-		rg := in.(*ssa.Range)
-		x := rg.X
-		if ph, isPhi := x.(*ssa.Phi); isPhi {
-			if r, ok := env[ph]; ok {
-				x = r
-			}
-		}
-		subst := isGlobalLoad(x, emptyQ)
-		if !subst && kit.Strip(x) != famMap {
-			unknown = append(unknown, "inner loop ranges over "+x.String())
-		}
 		var names []string
 		for _, n := range []string{"isDelete", "lenZero", "oneVersion", "isNil"} {
 			if as[n] {
@@ -188,7 +258,70 @@ func deleteKindTable(c *kit.Ctx, fn *ssa.Function, next *ssa.Next, kindOf func(e
 				names = append(names, "!"+n)
 			}
 		}
-		rows = append(rows, kindRow{strings.Join(names, ","), subst, kindOf(env, rg)})
+		// all combinations of sides of the unrelated tests met on the way must give the same outcome
+		type outcome struct {
+			subst bool
+			kind  string
+		}
+		var outs []outcome
+		work := []map[*ssa.If]bool{{}}
+		failed := false
+		for len(work) > 0 && len(outs) < 16 {
+			forced := work[0]
+			work = work[1:]
+			a := a0
+			a.v = famMap
+			a.assign = as
+			a.target = next
+			a.forced = forced
+			env, in, ok := walkCFG(fn.Blocks[0], nil, &a, func(in ssa.Instruction) bool {
+				rg, isR := in.(*ssa.Range)
+				if !isR {
+					return false
+				}
+				_, isMap := rg.X.Type().Underlying().(*types.Map)
+				return isMap
+			})
+			if !ok && a.ambiguous != nil {
+				for _, side := range []bool{true, false} {
+					f2 := map[*ssa.If]bool{}
+					for k, v := range forced {
+						f2[k] = v
+					}
+					f2[a.ambiguous] = side
+					work = append(work, f2)
+				}
+				continue
+			}
+			if !ok {
+				unknown = append(unknown, a.unknown...)
+				failed = true
+				break
+			}
+			rg := in.(*ssa.Range)
+			x := rg.X
+			if ph, isPhi := x.(*ssa.Phi); isPhi {
+				if r, ok := env[ph]; ok {
+					x = r
+				}
+			}
+			subst := isGlobalLoad(x, emptyQ)
+			if !subst && kit.Strip(x) != famMap {
+				unknown = append(unknown, "inner loop ranges over "+x.String())
+			}
+			outs = append(outs, outcome{subst, kindOf(env, rg)})
+		}
+		if failed || len(outs) == 0 {
+			continue
+		}
+		for _, o := range outs[1:] {
+			if o != outs[0] {
+				unknown = append(unknown, "the outcome for "+strings.Join(names, ",")+" depends on a test that is not about the kind of cell")
+			}
+		}
+		subst, kind := outs[0].subst, outs[0].kind
+		_ = body
+		rows = append(rows, kindRow{strings.Join(names, ","), subst, kind})
 	}
 	return rows, unknown
 }
@@ -414,119 +547,126 @@ func runC10(c *kit.Ctx) {
 	}
 	c.Check(isZeroLin(sizeForm.Sub(want)), cbl, "size-form", cbl.Pos(), "cellblockLen = 24 + rowLen + familyLen + qualifierLen + valueLen ("+sizeForm.String(eng.Name)+")",
 		"cellblockLen is "+sizeForm.String(eng.Name)+", a KeyValue cell occupies 24 + row + family + qualifier + value bytes")
-	// appendCellblock: bytes written
-	var lastCopy *ssa.Call
-	var mk *ssa.MakeSlice
-	kit.Instrs(app, func(in ssa.Instruction) {
-		if call, ok := in.(*ssa.Call); ok && kit.CalleeName(call) == "builtin.copy" {
-			lastCopy = call
-		}
-		if m, ok := in.(*ssa.MakeSlice); ok {
-			mk = m
-		}
-	})
 	// appendCellblock(row []byte, family, qualifier string, value []byte, ts uint64, typ byte, cbs []byte):
 	// parameters by type and position
 	rowP, valP, cbsParam := paramOfType(app, "[]byte", 0), paramOfType(app, "[]byte", 1), paramOfType(app, "[]byte", 2)
 	famP, qualP := paramOfType(app, "string", 0), paramOfType(app, "string", 1)
-	if lastCopy == nil || mk == nil || cbsParam == nil || rowP == nil || famP == nil || qualP == nil || valP == nil {
-		c.Unk(app, "writer-shape", app.Pos(), "appendCellblock no longer has the shape make+cursor+copy with parameters row/family/qualifier/value/cbs")
-	} else {
-		sl, _ := lastCopy.Call.Args[0].(*ssa.Slice)
-		var written bounds.Lin
-		if sl != nil && sl.Low != nil {
-			written = eng.Lin(sl.Low).Sub(eng.LenOf(cbsParam)).Add(eng.LenOf(lastCopy.Call.Args[1]))
-		}
-		wantW := bounds.Const(24).Add(eng.LenOf(rowP)).Add(eng.LenOf(famP)).Add(eng.LenOf(qualP)).Add(eng.LenOf(valP))
-		c.Check(sl != nil && isZeroLin(written.Sub(wantW)), app, "bytes-written", lastCopy.Pos(), "cursor advances + value copy = 24 + len(row)+len(family)+len(qualifier)+len(value)",
-			"appendCellblock writes "+written.String(eng.Name)+" bytes, expected "+wantW.String(eng.Name))
-		// allocation = cellblockLen(len(row), len(family), len(qualifier), len(value))
-		alloc := bounds.Lin{}
-		okAlloc := false
-		if call, ok := mk.Len.(*ssa.Call); ok && kit.StaticCallee(call) == cbl {
-			alloc = bounds.Const(sizeForm.C)
-			okAlloc = true
-			for sym, co := range sizeForm.T {
-				pa, _ := sym.K.(ssa.Value).(*ssa.Parameter)
-				idx := paramIndex(cbl, pa)
-				alloc = alloc.Add(eng.Lin(call.Call.Args[idx]).Scale(co))
-			}
-		}
-		c.Check(okAlloc && isZeroLin(alloc.Sub(wantW)), app, "bytes-allocated", mk.Pos(), "the buffer grows by cellblockLen of the same four lengths", "the buffer is not grown by exactly the number of bytes written")
-		// header fields: first three PutUint32 values
-		var puts []*ssa.Call
-		kit.Instrs(app, func(in ssa.Instruction) {
-			if call, ok := in.(*ssa.Call); ok && strings.HasSuffix(kit.CalleeName(call), "bigEndian).PutUint32") {
-				puts = append(puts, call)
-			}
-		})
-		if len(puts) >= 3 {
-			kv := eng.Lin(convOperand(puts[0].Call.Args[2]))
-			kl := eng.Lin(convOperand(puts[1].Call.Args[2]))
-			vl := eng.Lin(convOperand(puts[2].Call.Args[2]))
-			keyWant := bounds.Const(12).Add(eng.LenOf(rowP)).Add(eng.LenOf(famP)).Add(eng.LenOf(qualP))
-			c.Check(isZeroLin(kv.Sub(wantW).Add(bounds.Const(4))), app, "header-kvlen", puts[0].Pos(), "stored key-value length = bytes written - 4", "the stored key-value length is "+kv.String(eng.Name))
-			c.Check(isZeroLin(kl.Sub(keyWant)), app, "header-keylen", puts[1].Pos(), "stored key length = 2+row+1+family+qualifier+8+1", "the stored key length is "+kl.String(eng.Name))
-			c.Check(isZeroLin(vl.Sub(eng.LenOf(valP))), app, "header-vallen", puts[2].Pos(), "stored value length = len(value)", "the stored value length is "+vl.String(eng.Name))
-		} else {
-			c.Unk(app, "header-fields", app.Pos(), "fewer than three PutUint32 header writes found")
-		}
+	var evs []wEvent
+	style, okEv := "", false
+	if cbsParam != nil {
+		evs, style, okEv = writerEvents(app, cbsParam, eng)
 	}
-	// writer field order: lengths, row length, row, family length, family, qualifier, timestamp, type, value
-	if cbsParam != nil && rowP != nil && famP != nil && qualP != nil && valP != nil {
+	if !okEv || cbsParam == nil || rowP == nil || famP == nil || qualP == nil || valP == nil {
+		c.Unk(app, "writer-shape", app.Pos(), "appendCellblock is no longer a sequence of fixed-width writes and copies (cursor style or append style) with parameters row/family/qualifier/value/cbs")
+	} else {
+		last := evs[len(evs)-1]
+		written := last.off.Add(last.size)
+		wantW := bounds.Const(24).Add(eng.LenOf(rowP)).Add(eng.LenOf(famP)).Add(eng.LenOf(qualP)).Add(eng.LenOf(valP))
+		c.Check(isZeroLin(written.Sub(wantW)), app, "bytes-written", last.pos, "the writes end at 24 + len(row)+len(family)+len(qualifier)+len(value) bytes ("+style+" style)",
+			"appendCellblock writes "+written.String(eng.Name)+" bytes, expected "+wantW.String(eng.Name))
+		// every write starts where the previous one ended (no gap, no overlap)
+		contiguous := true
+		next := bounds.Const(0)
+		for _, e := range evs {
+			if !isZeroLin(e.off.Sub(next)) {
+				contiguous = false
+			}
+			next = e.off.Add(e.size)
+		}
+		c.Check(contiguous, app, "writes-contiguous", app.Pos(), "every field starts where the previous one ended", "the fields of a cell are not written back to back")
+		// allocation = cellblockLen(len(row), len(family), len(qualifier), len(value)) (cursor style: the
+		// region written through the cursor must exist; append style grows as it goes)
+		if style == "cursor" {
+			var mk *ssa.MakeSlice
+			kit.Instrs(app, func(in ssa.Instruction) {
+				if m, ok := in.(*ssa.MakeSlice); ok {
+					mk = m
+				}
+			})
+			alloc := bounds.Lin{}
+			okAlloc := false
+			if mk != nil {
+				if call, ok := mk.Len.(*ssa.Call); ok && kit.StaticCallee(call) == cbl {
+					alloc = bounds.Const(sizeForm.C)
+					okAlloc = true
+					for sym, co := range sizeForm.T {
+						pa, _ := sym.K.(ssa.Value).(*ssa.Parameter)
+						idx := paramIndex(cbl, pa)
+						alloc = alloc.Add(eng.Lin(call.Call.Args[idx]).Scale(co))
+					}
+				}
+			}
+			c.Check(okAlloc && isZeroLin(alloc.Sub(wantW)), app, "bytes-allocated", app.Pos(), "the buffer grows by cellblockLen of the same four lengths", "the buffer is not grown by exactly the number of bytes written")
+		} else {
+			c.OK(app, "bytes-allocated", app.Pos(), "append style: the buffer grows with every write (any pre-sizing is only a capacity hint)")
+		}
+		// header fields: the first three 32-bit writes
+		var u32s []wEvent
+		for _, e := range evs {
+			if e.kind == "u32" {
+				u32s = append(u32s, e)
+			}
+		}
+		if len(u32s) >= 3 {
+			kv := eng.Lin(convOperand(u32s[0].val))
+			kl := eng.Lin(convOperand(u32s[1].val))
+			vl := eng.Lin(convOperand(u32s[2].val))
+			keyWant := bounds.Const(12).Add(eng.LenOf(rowP)).Add(eng.LenOf(famP)).Add(eng.LenOf(qualP))
+			c.Check(isZeroLin(kv.Sub(wantW).Add(bounds.Const(4))), app, "header-kvlen", u32s[0].pos, "stored key-value length = bytes written - 4", "the stored key-value length is "+kv.String(eng.Name))
+			c.Check(isZeroLin(kl.Sub(keyWant)), app, "header-keylen", u32s[1].pos, "stored key length = 2+row+1+family+qualifier+8+1", "the stored key length is "+kl.String(eng.Name))
+			c.Check(isZeroLin(vl.Sub(eng.LenOf(valP))), app, "header-vallen", u32s[2].pos, "stored value length = len(value)", "the stored value length is "+vl.String(eng.Name))
+		} else {
+			c.Unk(app, "header-fields", app.Pos(), "fewer than three 32-bit header writes found")
+		}
+		// writer field order: lengths, row length, row, family length, family, qualifier, timestamp, type, value
 		tsP, typP := paramOfExactType(app, "uint64", 0), paramOfExactType(app, "byte", 0)
 		if typP == nil {
 			typP = paramOfExactType(app, "uint8", 0)
 		}
 		var seq []string
-		kit.Instrs(app, func(in ssa.Instruction) {
-			switch x := in.(type) {
-			case *ssa.Call:
-				n := kit.CalleeName(x)
-				switch {
-				case strings.HasSuffix(n, "bigEndian).PutUint32"):
-					seq = append(seq, "u32")
-				case strings.HasSuffix(n, "bigEndian).PutUint16"):
-					if l := kit.LenOf(convOperand(x.Call.Args[2])); l != nil && l == ssa.Value(rowP) {
-						seq = append(seq, "u16:len(row)")
-					} else {
-						seq = append(seq, "u16:?")
-					}
-				case strings.HasSuffix(n, "bigEndian).PutUint64"):
-					if x.Call.Args[2] == ssa.Value(tsP) {
-						seq = append(seq, "u64:ts")
-					} else {
-						seq = append(seq, "u64:?")
-					}
-				case n == "builtin.copy":
-					src := kit.Strip(x.Call.Args[1])
-					switch src {
-					case ssa.Value(rowP):
-						seq = append(seq, "row")
-					case ssa.Value(famP):
-						seq = append(seq, "family")
-					case ssa.Value(qualP):
-						seq = append(seq, "qualifier")
-					case ssa.Value(valP):
-						seq = append(seq, "value")
-					default:
-						seq = append(seq, "copy:?")
-					}
+		for _, e := range evs {
+			switch e.kind {
+			case "u32":
+				seq = append(seq, "u32")
+			case "u16":
+				if l := kit.LenOf(convOperand(e.val)); l != nil && l == ssa.Value(rowP) {
+					seq = append(seq, "u16:len(row)")
+				} else {
+					seq = append(seq, "u16:?")
 				}
-			case *ssa.Store:
-				if ia, ok := x.Addr.(*ssa.IndexAddr); ok && kit.Root(ia.X) != nil {
-					if _, isByte := x.Val.Type().Underlying().(*types.Basic); isByte {
-						if x.Val == ssa.Value(typP) {
-							seq = append(seq, "u8:type")
-						} else if cv, ok := x.Val.(*ssa.Convert); ok {
-							if l := kit.LenOf(cv.X); l != nil && l == ssa.Value(famP) {
-								seq = append(seq, "u8:len(family)")
-							}
-						}
+			case "u64":
+				if e.val == ssa.Value(tsP) {
+					seq = append(seq, "u64:ts")
+				} else {
+					seq = append(seq, "u64:?")
+				}
+			case "bytes":
+				switch e.val {
+				case ssa.Value(rowP):
+					seq = append(seq, "row")
+				case ssa.Value(famP):
+					seq = append(seq, "family")
+				case ssa.Value(qualP):
+					seq = append(seq, "qualifier")
+				case ssa.Value(valP):
+					seq = append(seq, "value")
+				default:
+					seq = append(seq, "copy:?")
+				}
+			case "u8":
+				if e.val == ssa.Value(typP) {
+					seq = append(seq, "u8:type")
+				} else if cv, ok := e.val.(*ssa.Convert); ok {
+					if l := kit.LenOf(cv.X); l != nil && l == ssa.Value(famP) {
+						seq = append(seq, "u8:len(family)")
+					} else {
+						seq = append(seq, "u8:?")
 					}
+				} else {
+					seq = append(seq, "u8:?")
 				}
 			}
-		})
+		}
 		want := "u32 u32 u32 u16:len(row) row u8:len(family) family qualifier u64:ts u8:type value"
 		c.Check(strings.Join(seq, " ") == want, app, "field-order", app.Pos(), "KeyValue fields are written in the order: "+want,
 			"appendCellblock writes the KeyValue fields as ["+strings.Join(seq, " ")+"], the KeyValue layout (and this client's reader) is ["+want+"]")
@@ -555,6 +695,25 @@ func runC10(c *kit.Ctx) {
 					subs++
 				}
 				v = bo.X
+			}
+			if !(subs == 2 && total > 0) {
+				// any other spelling of the same linear expression (a named subtotal, reordered terms):
+				// one quantity minus two others minus a constant
+				lin := eng.Lin(sl.High)
+				pos, neg := 0, 0
+				for _, k := range lin.T {
+					switch k {
+					case 1:
+						pos++
+					case -1:
+						neg++
+					default:
+						pos = -100
+					}
+				}
+				if pos == 1 && neg == 2 && lin.C < 0 {
+					subs, total = 2, -lin.C
+				}
 			}
 			if subs == 2 && total > 0 {
 				found = true
@@ -618,19 +777,15 @@ func runC10(c *kit.Ctx) {
 	// ---- R4 ---------------------------------------------------------------
 	c.StartRule("R4", "field widths and fixed header layout agree between writer and reader", 10)
 	// writer: no narrowing-then-widening conversion feeds a fixed-width write
-	kit.Instrs(app, func(in ssa.Instruction) {
-		call, ok := in.(*ssa.Call)
-		if !ok {
-			return
+	var wOff []int64
+	var wWid []int
+	for _, e := range evs {
+		if e.kind == "bytes" || e.kind == "u8" {
+			continue
 		}
-		n := kit.CalleeName(call)
-		if !strings.Contains(n, "bigEndian).PutUint") {
-			return
-		}
-		arg := call.Call.Args[2]
 		good := true
 		why := ""
-		if cv, ok := arg.(*ssa.Convert); ok {
+		if cv, ok := e.val.(*ssa.Convert); ok {
 			if inner, ok := cv.X.(*ssa.Convert); ok {
 				ib, _ := inner.Type().Underlying().(*types.Basic)
 				ob, _ := cv.Type().Underlying().(*types.Basic)
@@ -640,26 +795,16 @@ func runC10(c *kit.Ctx) {
 				}
 			}
 		}
-		c.Check(good, app, "write-width "+kit.ShortName(n), call.Pos(), "written at the field's full width", "a length is truncated before it is written: "+why)
-	})
-	// writer layout: offsets of the fixed header relative to the start
-	var wOff []int64
-	var wWid []int
-	kit.Instrs(app, func(in ssa.Instruction) {
-		call, ok := in.(*ssa.Call)
-		if !ok || len(wOff) >= 4 {
-			return
-		}
-		if w, ok := putWidth(kit.CalleeName(call)); ok {
-			if sl, ok := call.Call.Args[1].(*ssa.Slice); ok && sl.Low != nil && cbsParam != nil {
-				off := eng.Lin(sl.Low).Sub(eng.LenOf(cbsParam))
-				if k, isC := off.IsConst(); isC {
-					wOff = append(wOff, k)
-					wWid = append(wWid, w)
-				}
+		c.Check(good, app, "write-width "+e.kind, e.pos, "written at the field's full width", "a length is truncated before it is written: "+why)
+		// writer layout: offsets of the fixed header relative to the start
+		if len(wOff) < 4 {
+			if k, isC := e.off.IsConst(); isC {
+				wOff = append(wOff, k)
+				w := map[string]int{"u16": 2, "u32": 4, "u64": 8}[e.kind]
+				wWid = append(wWid, w)
 			}
 		}
-	})
+	}
 	var rOff []int64
 	var rWid []int
 	kit.Instrs(rdr, func(in ssa.Instruction) {
@@ -788,4 +933,109 @@ func isReturnedCount(fn *ssa.Function, ph *ssa.Phi) bool {
 		}
 	})
 	return found
+}
+
+// wEvent is one write of the KeyValue writer: a fixed-width big-endian integer, a single byte, or a
+// run of bytes copied from a slice/string, with its offset from the start of the cell.
+type wEvent struct {
+	kind string // u16 | u32 | u64 | u8 | bytes
+	val  ssa.Value
+	off  bounds.Lin
+	size bounds.Lin
+	pos  token.Pos
+	call *ssa.Call
+}
+
+// writerEvents lists what appendCellblock writes, in order, for both ways of writing it: into a
+// pre-sized region through a cursor (PutUintNN(cbs[i:], v), copy(cbs[i:], src), cbs[i] = b) or by
+// appending (AppendUintNN(cbs, v), append(cbs, src...), append(cbs, b)). ok is false if the function
+// mixes in something that is not understood.
+func writerEvents(app *ssa.Function, cbsParam *ssa.Parameter, eng *bounds.Engine) (evs []wEvent, style string, ok bool) {
+	base := eng.LenOf(cbsParam)
+	run := bounds.Const(0) // append style: bytes appended so far
+	ok = true
+	width := func(name, prefix string) (int, bool) {
+		if !strings.Contains(name, "bigEndian)."+prefix+"Uint") {
+			return 0, false
+		}
+		switch {
+		case strings.HasSuffix(name, "16"):
+			return 2, true
+		case strings.HasSuffix(name, "32"):
+			return 4, true
+		case strings.HasSuffix(name, "64"):
+			return 8, true
+		}
+		return 0, false
+	}
+	setStyle := func(st string) {
+		if style == "" {
+			style = st
+		} else if style != st {
+			ok = false
+		}
+	}
+	kit.Instrs(app, func(in ssa.Instruction) {
+		switch x := in.(type) {
+		case *ssa.Call:
+			n := kit.CalleeName(x)
+			if w, isPut := width(n, "Put"); isPut {
+				sl, isSl := x.Call.Args[1].(*ssa.Slice)
+				if !isSl || sl.Low == nil {
+					ok = false
+					return
+				}
+				setStyle("cursor")
+				evs = append(evs, wEvent{fmt.Sprintf("u%d", w*8), x.Call.Args[2], eng.Lin(sl.Low).Sub(base), bounds.Const(int64(w)), x.Pos(), x})
+				return
+			}
+			if w, isApp := width(n, "Append"); isApp {
+				setStyle("append")
+				evs = append(evs, wEvent{fmt.Sprintf("u%d", w*8), x.Call.Args[2], run, bounds.Const(int64(w)), x.Pos(), x})
+				run = run.Add(bounds.Const(int64(w)))
+				return
+			}
+			switch n {
+			case "builtin.copy":
+				sl, isSl := x.Call.Args[0].(*ssa.Slice)
+				if !isSl || sl.Low == nil {
+					ok = false
+					return
+				}
+				setStyle("cursor")
+				evs = append(evs, wEvent{"bytes", kit.Strip(x.Call.Args[1]), eng.Lin(sl.Low).Sub(base), eng.LenOf(x.Call.Args[1]), x.Pos(), x})
+			case "builtin.append":
+				// append(cbs, make([]byte, n)...) pre-sizes the region of the cursor style
+				if _, isMk := kit.Root(x.Call.Args[1]).(*ssa.MakeSlice); isMk {
+					return
+				}
+				if els := elemsOfVariadic(x.Call.Args[1]); els != nil {
+					setStyle("append")
+					for _, e := range els {
+						evs = append(evs, wEvent{"u8", e, run, bounds.Const(1), x.Pos(), x})
+						run = run.Add(bounds.Const(1))
+					}
+					return
+				}
+				setStyle("append")
+				src := kit.Strip(x.Call.Args[1])
+				evs = append(evs, wEvent{"bytes", src, run, eng.LenOf(x.Call.Args[1]), x.Pos(), x})
+				run = run.Add(eng.LenOf(x.Call.Args[1]))
+			}
+		case *ssa.Store:
+			if ia, isIA := x.Addr.(*ssa.IndexAddr); isIA {
+				if b, isB := x.Val.Type().Underlying().(*types.Basic); isB && b.Kind() == types.Uint8 {
+					if _, isArr := ia.X.Type().Underlying().(*types.Pointer); isArr {
+						return // element of a variadic literal
+					}
+					setStyle("cursor")
+					evs = append(evs, wEvent{"u8", x.Val, eng.Lin(ia.Index).Sub(base), bounds.Const(1), x.Pos(), nil})
+				}
+			}
+		}
+	})
+	if len(evs) == 0 {
+		ok = false
+	}
+	return
 }
